@@ -95,17 +95,29 @@ func c09Pipe(out *vh.Out, op string) {
 	}
 	tgt := &c09PTarget{fail: fail}
 	mod := testutils.Modifier{InstName: "verif_rewrite", RcptTo: rw}
-	d := MsgPipeline{
-		msgpipelineCfg: msgpipelineCfg{
-			globalModifiers: modify.Group{Modifiers: []module.Modifier{mod}},
-			perSource:       map[string]sourceBlock{},
-			defaultSource: sourceBlock{
-				perRcpt:     map[string]*rcptBlock{},
-				defaultRcpt: &rcptBlock{targets: []module.DeliveryTarget{tgt}},
-			},
-		},
-		Log: log.Logger{Out: log.NopOutput{}},
+	// where the rewriting modifier sits: g = global, s = source block, r = recipient block
+	place := "g"
+	if len(toks) > 4 {
+		place = toks[4]
 	}
+	grp := modify.Group{Modifiers: []module.Modifier{mod}}
+	cfg := msgpipelineCfg{
+		perSource: map[string]sourceBlock{},
+		defaultSource: sourceBlock{
+			perRcpt:     map[string]*rcptBlock{},
+			defaultRcpt: &rcptBlock{targets: []module.DeliveryTarget{tgt}},
+		},
+	}
+	switch place {
+	case "g":
+		cfg.globalModifiers = grp
+	case "s":
+		cfg.defaultSource.modifiers = grp
+	default:
+		cfg.defaultSource.defaultRcpt.modifiers = grp
+	}
+	d := MsgPipeline{msgpipelineCfg: cfg, Log: log.Logger{Out: log.NopOutput{}}}
+	out.Stat("pipe.place." + place)
 	ctx := context.Background()
 	delivery, err := d.Start(ctx, &module.MsgMetadata{ID: "verif"}, "sender@example.com")
 	if err != nil {
@@ -215,6 +227,6 @@ func TestVerifC09Pipeline(t *testing.T) {
 		if len(fails) > 0 {
 			fs = strings.Join(fails, ",")
 		}
-		c09Pipe(out, fmt.Sprintf("C09 pipe %s %s", strings.Join(parts, ","), fs))
+		c09Pipe(out, fmt.Sprintf("C09 pipe %s %s %s", strings.Join(parts, ","), fs, r.Pick("g", "s", "r")))
 	}
 }
